@@ -73,6 +73,8 @@ def features(m: M.MDoc) -> set[str]:
 
     def dup_keys(nodes):
         ks = [n.key for n in nodes if isinstance(n, (M.MAssign, M.MBlock))]
+        # repeated section markers (same id and name) are repeated sibling keys for the dict-shaped views too
+        ks += [("§", getattr(n, "section_id", None), n.key) for n in nodes if isinstance(n, M.MSection)]
         return len(ks) != len(set(ks))
 
     def comments_empty(cs):
